@@ -121,7 +121,7 @@ func pausedCommit(ctl *hookctl.Ctl, idx int, point string, ntab int, withNewTabl
 		select {
 		case <-ch:
 			return true
-		case <-time.After(long):
+		case <-time.After(vkit.Patient(long)):
 			return false
 		}
 	}
@@ -182,7 +182,7 @@ func pausedCommit(ctl *hookctl.Ctl, idx int, point string, ntab int, withNewTabl
 	var o obs
 	select {
 	case o = <-ch:
-	case <-time.After(long):
+	case <-time.After(vkit.Patient(long)):
 		return "reader-blocked/" + point, "snapshot did not complete while the writer is paused", true
 	}
 	want := 0
@@ -208,7 +208,7 @@ func pausedCommit(ctl *hookctl.Ctl, idx int, point string, ntab int, withNewTabl
 				return "partial-visibility/blocked-writer", fmt.Sprintf("a writer that queued for table 0 while the first one was at %s sees %v tagged rows per table through its write transaction: part of that transaction", point, cnt), true
 			}
 		}
-	case <-time.After(long):
+	case <-time.After(vkit.Patient(long)):
 		return "stuck/blocked-writer/" + point, "the queued writer was never granted after the first one finished", true
 	}
 	if withNewTable {
@@ -217,7 +217,7 @@ func pausedCommit(ctl *hookctl.Ctl, idx int, point string, ntab int, withNewTabl
 			if err != nil {
 				return "newtable-error/" + point, err.Error(), true
 			}
-		case <-time.After(long):
+		case <-time.After(vkit.Patient(long)):
 			return "stuck/newtable/" + point, "NewTable did not finish after the writer finished", true
 		}
 	}
